@@ -24,7 +24,11 @@ def stepConv (scn : Scn) (cfg : Cfg) (st : JStep) (s : Sys) : Sys × String :=
     if st.op = "reconcile" ∨ st.op = "phase" then
       let s0 := arm s (some f.budget)
       let (s1, _) := stepModel scn cfg st s0
-      (crashState s0 s1 f.budget, "R fault")
+      let cut := crashState s0 s1 f.budget
+      -- mode "crash": the process died; the next pass runs in a new one (nothing registered with the
+      -- dynamic cache).  The other modes: the process lives on (`crashState` keeps the registrations
+      -- the pass started with: those of the cut pass are made again by the retry before any read).
+      (if f.mode = "crash" then { cut with w := cut.w.restart } else cut, "R fault")
     else stepModel scn cfg st (arm s none)
 
 /-- environment part of a settle round: every managed object becomes ready, foreign finalizers go away. -/
@@ -90,6 +94,14 @@ structure ConvOut where
   objs : String
   proj : String
   extra : Nat
+  regs : String
+
+/-- what the operator process has registered with its dynamic cache (`Cache.Registrations` in
+harness/verifstore/cache.go): `Kind:OwnerKind/name,…` per kind, owners without uid, sorted. -/
+def regsStr (w : World) : String :=
+  let kinds := sortStrings (w.watched.map (·.1)).eraseDups
+  ";".intercalate (kinds.map fun k =>
+    k ++ ":" ++ ",".intercalate (sortStrings ((w.watched.filter (·.1 = k)).map fun e => e.2.kind ++ "/" ++ e.2.name).eraseDups))
 
 def iter {α : Type} (f : α → α) : Nat → α → α
   | 0, a => a
@@ -109,22 +121,29 @@ def runConv (scn : Scn) (disturbed : Bool) : ConvOut :=
   let objs := sortStrings ((managedKeys scn cfg).filterMap fun k => (sys.w.store.get k).map (objStr k))
   let sys' := settleRound scn cfg sys
   { outs := outs, sets := ";".intercalate sets, objs := ";".intercalate objs,
-    proj := projection scn cfg sys, extra := changedBy scn cfg sys sys' }
+    proj := projection scn cfg sys, extra := changedBy scn cfg sys sys', regs := regsStr sys.w }
 
 def model (scn : Scn) : String :=
   let d := runConv scn true
   let r := runConv scn false
-  " ## ".intercalate (d.outs ++ [d.sets, d.objs, "REF " ++ r.proj, "END " ++ d.proj, s!"EXTRA {d.extra} {r.extra}"])
+  " ## ".intercalate (d.outs ++ [d.sets, d.objs, "REF " ++ r.proj, "END " ++ d.proj, s!"EXTRA {d.extra} {r.extra}",
+    s!"RW [{r.regs}]", s!"EW [{d.regs}]"])
 
 /-- The property on an implementation line: the disturbed run reached the end state of the
-undisturbed run, and one more fair round changed nothing in either. -/
+undisturbed run, and one more fair round changed nothing in either.  Restart-safety of the
+mechanism (properties.jsonl, C10 `state`: "dynamic cache references: in-memory only, rebuilt by
+Watch during every reconcile and teardown"): at the end the operator process holds the same
+registrations with its dynamic cache as in the undisturbed run, and no pass ever read a kind through
+the cache that nobody in the process had registered (`CacheNotStartedError`). -/
 def monitor (_scn : Scn) (line : String) : String :=
   let parts := line.splitOn " ## "
   let ref := parts.find? (·.startsWith "REF ")
   let fin := parts.find? (·.startsWith "END ")
   let extra := parts.find? (·.startsWith "EXTRA ")
-  match ref, fin, extra with
-  | some r, some e, some x =>
+  let rw := parts.find? (·.startsWith "RW [")
+  let ew := parts.find? (·.startsWith "EW [")
+  match ref, fin, extra, rw, ew with
+  | some r, some e, some x, some rw, some ew =>
     if x ≠ "EXTRA 0 0" then s!"bad not-quiescent {x}"
     else if (r.drop 4).toString ≠ (e.drop 4).toString then
       let rs := ((r.drop 4).toString.replace " @ " ";").splitOn ";"
@@ -132,8 +151,12 @@ def monitor (_scn : Scn) (line : String) : String :=
       let d1 := es.filter (fun x => !rs.contains x)
       let d2 := rs.filter (fun x => !es.contains x)
       s!"bad diverged end={d1.headD ""} reference={d2.headD ""}"
-    else "ok"
-  | _, _, _ => "bad malformed-line"
+    else if (rw.drop 3).toString ≠ (ew.drop 3).toString then
+      s!"bad cache-registrations end={(ew.drop 3).toString} reference={(rw.drop 3).toString}"
+    else match parts.zipIdx.find? (fun (p, _) => p.startsWith "R err:CacheNotStarted") with
+      | some (_, i) => s!"bad cache-read-before-watch step={i}"
+      | none => "ok"
+  | _, _, _, _, _ => "bad malformed-line"
 
 end Pko.Drv.C10
 
